@@ -328,6 +328,24 @@ def _module_str_consts(ctx, modname: str) -> Dict[str, str]:
     return out
 
 
+def rule_every_record_reaches_the_body(ctx) -> None:
+    """"edge weights clamped to the configured bounds" for every edge of the state: a field of ONE record is converted under a
+    guard of its own.  A conversion inside a loop whose only guard is a try around the whole loop ends the loop at the first
+    record that fails (a weight beyond the float range, None, text) and every later record is silently absent from the body."""
+    from .. import hazards
+    import types
+    n_fn = 0
+    for fn in ctx.prog.module(SNAP).funcs.values():
+        n_fn += 1
+        for conv, t, lp in hazards.conversions_under_loop_wide_try(ctx, fn):
+            ctx.violation("C06.CLAMP", ctx.okey(f"{fn.qual}/record-conversion-guarded-per-record"), fn.loc(conv),
+                          f"`{src(conv)[:50]}` runs inside a loop whose only guard is the try around the whole loop (line {t.lineno}): the first record that does not convert ends the loop and "
+                          "that record and every later one are missing from the snapshot body, without a trace")
+    probe = ast.parse("def _p(recs, out):\n    try:\n        for k, r in recs.items():\n            out[k] = float(r.get('weight'))\n    except Exception:\n        pass\n").body[0]
+    ctx.floor("C06.CLAMP", "positive control: loop-wide try around a per-record conversion recognised", len(hazards.conversions_under_loop_wide_try(ctx, types.SimpleNamespace(node=probe))), 1)
+    ctx.holds("C06.CLAMP", f"{SNAP}/records-converted-under-their-own-guard", "clematis/engine/snapshot.py", f"{n_fn} functions of the snapshot module: no per-record numeric conversion relies on a loop-wide try")
+
+
 # ------------------------------------------------------------------ CLAMP
 def rule_clamp(ctx) -> None:
     fn = ctx.func(SNAP + ":_sanitize_gel_for_write")
@@ -355,9 +373,17 @@ def rule_clamp(ctx) -> None:
                             if isinstance(inner, ast.Call) and (dotted(inner.func) or "").endswith("_clamp") and len(inner.args) == 3:
                                 bounds = rd.slice(inner.args[1:], n)
                                 from_cfg = any((dotted(c.func) or "").endswith("_graph_bounds_from_cfg") for c in bounds.calls())
-                                is_float = isinstance(inner.args[0], ast.Call) and dotted(inner.args[0].func) == "float"
+                                # the clamped value is a float: float(.) itself, or a local every definition of which is float(.)
+                                a0 = inner.args[0]
+                                is_float = isinstance(a0, ast.Call) and dotted(a0.func) == "float"
+                                if isinstance(a0, ast.Name):
+                                    dn = cfg.node_containing(e)
+                                    ds = [d for d in rd.reaching(a0.id, dn[0] if dn else n) if d.value is not None]
+                                    def _fl(v):
+                                        return (isinstance(v, ast.Call) and dotted(v.func) == "float") or (isinstance(v, ast.IfExp) and _fl(v.body) and _fl(v.orelse))
+                                    is_float = bool(ds) and all(_fl(d.value) for d in ds)
                                 ok = from_cfg and is_float
-                        ctx.check(ok, "C06.CLAMP", f"{fn.qual}/weight:{src(e)[:40]}", fn.loc(n.ast),
+                        ctx.check(ok, "C06.CLAMP", f"{fn.qual}/weight:_round6(_clamp(float))" if ok else f"{fn.qual}/weight:{src(e)[:40]}", fn.loc(n.ast),
                                   f"stored weight is `{src(e)[:60]}`: clamped to the configured bounds and rounded to 6 decimals",
                                   f"a stored edge weight `{src(e)[:60]}` is not _round6(_clamp(float(.), wmin, wmax))")
     ctx.floor("C06.CLAMP", "weight stores", n_w, 1)
@@ -658,5 +684,6 @@ def run(ctx) -> None:
     rule_table(ctx)
     rule_sym(ctx)
     rule_clamp(ctx)
+    rule_every_record_reaches_the_body(ctx)
     rule_disc(ctx)
     rule_mark(ctx)
